@@ -428,8 +428,19 @@ func (rl *respDeserializer) getDouble(line string) (value respDouble, valid bool
 	return respDouble(value64), true
 }
 
+// sizeHint bounds a declared element count by what the unread input could
+// possibly hold (every element takes at least three bytes), so that a
+// forged count cannot drive an allocation.
+func (rl *respDeserializer) sizeHint(count int) int {
+	most := (len(rl.content) - rl.pos) / 3
+	if count > most {
+		return most
+	}
+	return count
+}
+
 func (rl *respDeserializer) getNextArray(count int) (value respArray, valid bool) {
-	a := make(respArray, 0, count)
+	a := make(respArray, 0, rl.sizeHint(count))
 
 	for i := 0; i < count; i++ {
 		var v respValue
@@ -443,7 +454,7 @@ func (rl *respDeserializer) getNextArray(count int) (value respArray, valid bool
 }
 
 func (rl *respDeserializer) getNextMap(pairs int) (value respMap, valid bool) {
-	m := newRespMapSized(pairs)
+	m := newRespMapSized(rl.sizeHint(pairs))
 
 	for i := 0; i < pairs; i++ {
 		var k, v respValue
@@ -462,7 +473,7 @@ func (rl *respDeserializer) getNextMap(pairs int) (value respMap, valid bool) {
 }
 
 func (rl *respDeserializer) getNextAttributeMap(pairs int) (value respAttributeMap, valid bool) {
-	m := make(respAttributeMap, pairs)
+	m := make(respAttributeMap, rl.sizeHint(pairs))
 
 	for i := 0; i < pairs; i++ {
 		var k, v respValue
@@ -481,7 +492,7 @@ func (rl *respDeserializer) getNextAttributeMap(pairs int) (value respAttributeM
 }
 
 func (rl *respDeserializer) getNextSet(count int) (value respSet, valid bool) {
-	s := make(respSet, count)
+	s := make(respSet, rl.sizeHint(count))
 
 	for i := 0; i < count; i++ {
 		var v respValue
@@ -496,7 +507,7 @@ func (rl *respDeserializer) getNextSet(count int) (value respSet, valid bool) {
 }
 
 func (rl *respDeserializer) getNextPush(count int) (value respPush, valid bool) {
-	a := make([]respValue, 0, count)
+	a := make([]respValue, 0, rl.sizeHint(count))
 	p := respPush{}
 
 	var v respValue
